@@ -1,6 +1,6 @@
 use std::sync::LazyLock;
 
-use bigdecimal::{BigDecimal, FromPrimitive, One, RoundingMode, Signed, ToPrimitive, Zero};
+use bigdecimal::{BigDecimal, FromPrimitive, One, RoundingMode, Signed, Zero};
 use num_bigint::BigInt;
 
 #[derive(Clone, Debug)]
@@ -199,7 +199,7 @@ impl SparqlNumber {
     fn coerce_to_float(&self) -> f32 {
         match self {
             SparqlNumber::NativeInt(inner) => *inner as f32,
-            SparqlNumber::BigInt(inner) => inner.to_f32().unwrap_or(f32::NAN),
+            SparqlNumber::BigInt(inner) => inner.to_string().parse().unwrap_or(f32::NAN),
             SparqlNumber::Decimal(inner) => nearest_float(inner).unwrap_or(f32::NAN),
             SparqlNumber::Float(inner) => *inner,
             SparqlNumber::Double(inner) => *inner as f32,
@@ -213,7 +213,7 @@ impl SparqlNumber {
     pub fn coerce_to_double(&self) -> f64 {
         match self {
             SparqlNumber::NativeInt(inner) => *inner as f64,
-            SparqlNumber::BigInt(inner) => inner.to_f64().unwrap_or(f64::NAN),
+            SparqlNumber::BigInt(inner) => inner.to_string().parse().unwrap_or(f64::NAN),
             SparqlNumber::Decimal(inner) => nearest_float(inner).unwrap_or(f64::NAN),
             SparqlNumber::Float(inner) => f64::from(*inner),
             SparqlNumber::Double(inner) => *inner,
@@ -457,6 +457,8 @@ pub(crate) fn is_float_lexical(lex: &str) -> bool {
 /// (and `to_f32` rounds twice), so its result can be off by one unit in the last place,
 /// even on the wrong side of a neighbouring float;
 /// parsing the digits is correctly rounded whatever their number.
+/// (Big integers are promoted in the same way, because `BigInt::to_f64` may miss
+/// the low-order bits of numbers of three limbs or more when it rounds.)
 fn nearest_float<F: std::str::FromStr>(decimal: &BigDecimal) -> Option<F> {
     let (digits, scale) = decimal.as_bigint_and_exponent();
     format!("{digits}e{}", -scale).parse().ok()
